@@ -1,14 +1,20 @@
 (* C02 - Exact step set.  Full statement: the boolean predicate P_C02 of harness/monitors.py (demanded = executed,
    exactly once, strictly increasing, inside [0, until)), evaluated on every recorded trace.
-   Proved here: C02_strictly_increasing - the steps of every simulator are begun in strictly increasing (tuple) order over
-   the whole run, hence no time is executed twice (invariants Nx/Kx/ND of Sched/Strict.v, established by the input guard);
-   the step begun is the simulator's progress and its earliest queued step; nothing queued or in flight lies in a
-   simulator's past; progress never moves backwards; the "already progressed" error is unreachable.
-   Missing for the full statement (C02_partial): "every demanded time is executed" and "only demanded times are executed"
-   (the provenance of queue entries is not in the model); both are part of P_C02 on the implementation traces. *)
+   Proved here, for every scenario with certified tables, every behaviour and interleaving:
+   - C02_strictly_increasing: the steps of every simulator are begun in strictly increasing (tuple) order over the whole
+     run, hence no time is executed twice (invariants Nx/Kx/ND of Sched/Strict.v, established by the input guard);
+   - C02_only_demanded_steps: every step that is begun was an initial step or was demanded by an earlier event of the run
+     (a next-step time the simulator returned, or an output delivered to one of its trigger inputs), before until;
+   - C02_demanded_is_queued: a demanded step is in the simulator's queue right after the demanding event;
+   - C02_queued_steps_are_executed: in a run that completes (every simulator done), every step that is queued at any
+     point is begun by a later event; C02_done_means_queue_empty;
+   - the step begun is the simulator's progress and its earliest queued step; nothing queued or in flight lies in a
+     simulator's past; progress never moves backwards; the "already progressed" error is unreachable.
+   Missing for the full statement (C02_partial): that the run completes (termination - see C05); it is checked on
+   every implementation trace together with P_C02. *)
 From Coq Require Import ZArith List Bool Arith.
 Import ListNotations.
-From MV Require Import Time.Spec Sched.Timing Sched.Inv Sched.Init Sched.Wle Sched.Main Sched.Guards Sched.Strict Sched.Final Static.Groups Static.Connect Static.Build Sched.Plane Sched.Link Sched.Certify.
+From MV Require Import Time.Spec Sched.Timing Sched.Inv Sched.Init Sched.Wle Sched.Main Sched.Guards Sched.Strict Sched.Final Sched.Live Sched.Progress Sched.Quiet Sched.NoLost Static.Groups Static.Connect Static.Build Sched.Plane Sched.Link Sched.Certify.
 Open Scope Z_scope.
 
 Theorem C02_partial_begin_is_progress : forall st, static_ok st -> forall s i t m s',
@@ -48,3 +54,30 @@ Proof.
   destruct (ancestors fuel t0) as [[a0|]|]; try discriminate. injection H as <- _ <- <-. apply check_static2_sound. exact C2.
 Qed.
 Print Assumptions C02_premises_certified.
+
+(* ---- demanded = executed ---- *)
+Theorem C02_only_demanded_steps : forall st evs l i c m s',
+  run st (init_state st) evs = Ok l ->
+  apply st (List.last l (init_state st)) (EvBegin i c m) = Ok s' ->
+  In c (init_nexts st i) \/
+  exists p e sp, nth_error evs p = Some e /\ nth_error (init_state st :: l) p = Some sp /\ demanded st sp e i c.
+Proof. exact only_demanded_steps. Qed.
+Print Assumptions C02_only_demanded_steps.
+
+Theorem C02_demanded_is_queued : forall st s e s' i c, apply st s e = Ok s' -> demanded st s e i c -> In c (nexts (s' i)).
+Proof. exact demanded_is_queued. Qed.
+Print Assumptions C02_demanded_is_queued.
+
+Theorem C02_queued_steps_are_executed : forall st, static_ok st -> init_before_until st ->
+  forall evs1 evs2 l1 l2, run st (init_state st) evs1 = Ok l1 ->
+  let s := List.last l1 (init_state st) in
+  run st s evs2 = Ok l2 ->
+  (forall i, (i < nsims st)%nat -> pc (List.last l2 s i) = Done) ->
+  forall i c, (i < nsims st)%nat -> In c (nexts (s i)) -> exists p m, nth_error evs2 p = Some (EvBegin i c m).
+Proof. exact no_lost_step. Qed.
+Print Assumptions C02_queued_steps_are_executed.
+
+Theorem C02_done_means_queue_empty : forall st, static_ok st -> init_before_until st ->
+  forall s i, reached st s -> (i < nsims st)%nat -> pc (s i) = Done -> nexts (s i) = [].
+Proof. exact done_queue_empty. Qed.
+Print Assumptions C02_done_means_queue_empty.
